@@ -55,6 +55,10 @@ pub struct Live {
     pub inputs: Vec<InRec>,  // C17: the real inputs since reset
     pub mem: usize,          // Memory(kind, p) from the specification (0 = unbounded)
     pub pair: Option<Ind>,   // C09: a Maximum of the same period fed the same scalars as this Minimum
+    pub heap: i64,           // C18: net heap bytes allocated inside next() since construction / reset
+    pub parts: Option<Parts>,// C15: the public building blocks, wired by hand
+    pub pmin: f64,           // smallest / largest price fed since reset (their difference: the spread scale of the stream)
+    pub pmax: f64,
 }
 
 #[derive(Clone, Copy, Debug)]
@@ -83,6 +87,9 @@ pub struct Stats {
     pub ord_zero_slack: u64,
     pub returns_checked: u64,
     pub size_checked: u64,
+    pub heap_checked: u64,
+    pub max_heap_growth: i64,
+    pub wired_compared: u64,
     pub panics: u64,
     pub max_rel_err: f64, // largest observed |err| / tolerance among compared fields
 }
@@ -203,7 +210,24 @@ fn image(unit: &Unit, r: (i64, i64), dim: &str) -> f64 {
     }
 }
 
+#[derive(Clone, Debug)]
+pub struct RecStep {
+    pub idx: usize,
+    pub inst: i64,
+    pub kind: String,
+    pub mult: f64,
+    pub got: Vec<f64>,
+    pub raw: Vec<f64>,
+    pub c: f64,
+    pub mag: f64,
+    pub t: u64,
+    pub skip: bool,
+    pub dims: Vec<String>,
+    pub spread: f64,
+}
+
 pub struct Run<'a> {
+    pub rec: Option<Vec<RecStep>>,
     pub unit: &'a Unit,
     pub line_no: u64,
     pub insts: HashMap<i64, Live>,
@@ -254,7 +278,7 @@ pub fn unit_ok(line: &Value, unit: &Unit) -> Option<Unit> {
 
 impl<'a> Run<'a> {
     pub fn new(unit: &'a Unit, line_no: u64) -> Run<'a> {
-        Run { unit, line_no, insts: HashMap::new(), blobs: HashMap::new(), strict_map: HashMap::new(), eff_map: HashMap::new() }
+        Run { rec: None, unit, line_no, insts: HashMap::new(), blobs: HashMap::new(), strict_map: HashMap::new(), eff_map: HashMap::new() }
     }
 
     fn bar_of(&self, op: &Value) -> (Bar, [i64; 5]) {
@@ -281,6 +305,8 @@ impl<'a> Run<'a> {
                     match r {
                         Ok(Ok(ind)) => {
                             let l = Live { ind, t: 0, mag: 0.0, strict: 0, eff: 0, cmax: 1.0, tainted: false, dead: false, len0: None, last: vec![], last_in: 0.0, shadow: None, inputs: vec![], mem: cfg.mem,
+                                pmin: f64::INFINITY, pmax: f64::NEG_INFINITY, heap: 0,
+                                parts: if ctx.prop == "C15" { Parts::new(&cfg) } else { None },
                                 pair: if ctx.prop == "C09" && cfg.kind == "MIN" { Ind::new("MAX", &cfg.per, 1.0).ok() } else { None }, cfg };
                             self.insts.insert(i, l);
                         }
@@ -310,6 +336,8 @@ impl<'a> Run<'a> {
                         }
                         l.t = 0;
                         l.mag = 0.0;
+                        l.pmin = f64::INFINITY;
+                        l.pmax = f64::NEG_INFINITY;
                         l.strict = 0;
                         l.eff = 0;
                         l.cmax = 1.0;
@@ -317,6 +345,10 @@ impl<'a> Run<'a> {
                         l.len0 = None;
                         l.last.clear();
                         l.inputs.clear();
+                        l.heap = 0;
+                        if let Some(p) = l.parts.as_mut() {
+                            p.reset();
+                        }
                         if let Some(p) = l.pair.as_mut() {
                             p.reset();
                         }
@@ -470,6 +502,7 @@ impl<'a> Run<'a> {
         let raw: Result<Option<Vec<f64>>, ()>;
         let mut di_raw: Option<Vec<f64>> = None;
         let mut inmag: f64 = 0.0;
+        let mut heap_delta: i64 = 0;
         let inrec: InRec;
         match name {
             "s" => {
@@ -478,7 +511,9 @@ impl<'a> Run<'a> {
                 let x = unit.price(k);
                 inmag = x.abs();
                 inrec = InRec::S(x);
+                let h0 = crate::alloc::live();
                 raw = catch_unwind(AssertUnwindSafe(|| l.ind.next_s(x))).map_err(|_| ());
+                heap_delta = crate::alloc::live() - h0;
             }
             "b" => {
                 let (bar, ks) = self.bar_of(op);
@@ -493,7 +528,9 @@ impl<'a> Run<'a> {
                         di_raw = catch_unwind(AssertUnwindSafe(|| c.next_b(&di))).ok();
                     }
                 }
+                let h0 = crate::alloc::live();
                 raw = catch_unwind(AssertUnwindSafe(|| Some(l.ind.next_b(&bar)))).map_err(|_| ());
+                heap_delta = crate::alloc::live() - h0;
             }
             _ => {
                 let ts = op["x"].as_str().unwrap();
@@ -513,6 +550,16 @@ impl<'a> Run<'a> {
         l.t += 1;
         if inmag.is_finite() {
             l.mag = l.mag.max(inmag);
+            match inrec {
+                InRec::S(x) => {
+                    l.pmin = l.pmin.min(x);
+                    l.pmax = l.pmax.max(x);
+                }
+                InRec::B(b) => {
+                    l.pmin = l.pmin.min(b.l).min(b.c).min(b.h);
+                    l.pmax = l.pmax.max(b.l).max(b.c).max(b.h);
+                }
+            }
         }
         l.strict = h2(l.strict, &lits, 1);
         ctx.stats.steps += 1;
@@ -532,6 +579,67 @@ impl<'a> Run<'a> {
             }
         };
         let got = observe(&l.cfg.kind, &raw);
+        // ---- C18: net heap growth inside next() (the returned Vec of outputs is the adapter's, not the indicator's)
+        if prop == "C18" {
+            l.heap += heap_delta - (raw.capacity() * 8) as i64;
+            ctx.stats.heap_checked += 1;
+            ctx.stats.max_heap_growth = ctx.stats.max_heap_growth.max(l.heap);
+            let bound = (256 + 64 * l.cfg.per.iter().sum::<usize>()) as i64;
+            if l.heap > bound {
+                let lc = l.clone();
+                ctx.violate(self.line_no, &unit, idx, Some(&lc), "heap-grows-with-stream-length", json!({"net_growth_bytes": l.heap, "bound": bound}));
+                l.heap = i64::MIN / 2; // report once per instance
+            }
+        }
+        // ---- C15: the composite must agree with its public parts wired by hand
+        if l.parts.is_some() && !l.tainted {
+            let wired = catch_unwind(AssertUnwindSafe(|| l.parts.as_mut().unwrap().step(&inrec))).ok();
+            if let (Some(w), Some(o)) = (wired, ob) {
+                let t = l.t;
+                let mfac = 1.0 + l.cfg.m.abs();
+                let fl = o["f"].as_array().cloned().unwrap_or_default();
+                // conditioning as in the value check
+                let den = rat(&o["den"]);
+                let dend = o["dend"].as_str().unwrap_or("ratio");
+                let mut c = 1.0f64;
+                if den.1 != 0 {
+                    if dend == "invc" {
+                        let d = den.0 as f64 / den.1 as f64;
+                        c = if d > 0.0 { 1.0 / d } else { f64::INFINITY };
+                    } else {
+                        let d = image(&unit, den, dend).abs();
+                        c = if d > 0.0 { l.mag / d } else { f64::INFINITY };
+                    }
+                } else if den.0 == 0 {
+                    c = f64::INFINITY;
+                }
+                c = c.max(1.0).max(l.cmax);
+                for (k, f) in fl.iter().enumerate() {
+                    if k >= w.len() {
+                        break;
+                    }
+                    let cls = f["cls"].as_str().unwrap_or("none");
+                    let (a, b) = (got[k], w[k]);
+                    let (err, tol) = match cls {
+                        "exact" => (if num_eq(a, b) { 0.0 } else { f64::INFINITY }, 0.0),
+                        "tau" => ((a - b).abs(), tau(t) * l.mag * mfac * 1.001),
+                        "tauvar" => ((a.signum() * a * a - b.signum() * b * b).abs(), tau(t) * l.mag * l.mag * (l.cfg.m * l.cfg.m).max(1.0) * 1.001),
+                        _ => {
+                            if !(c <= 1e6) || unit.warped() {
+                                if num_eq(a, b) { (0.0, 0.0) } else { ctx.stats.skipped_ill += 1; continue; }
+                            } else {
+                                ((a - b).abs(), tau(t) * c * scale_of(&l.cfg.kind) * 1.001)
+                            }
+                        }
+                    };
+                    ctx.stats.wired_compared += 1;
+                    if !(err <= tol) && !num_eq(a, b) {
+                        let lc = l.clone();
+                        ctx.violate(self.line_no, &unit, idx, Some(&lc), "composite-differs-from-hand-wired-parts", json!({"field": f["k"], "composite": a, "wired": b, "tol": tol, "cond": c}));
+                    }
+                }
+            }
+        }
         // ---- C04: after reset() the instance must be indistinguishable from a freshly constructed one
         if let Some(sh) = l.shadow.as_mut() {
             let r = catch_unwind(AssertUnwindSafe(|| match inrec {
@@ -623,7 +731,7 @@ impl<'a> Run<'a> {
             }
         }
         // ---- C18: serialized size constant after the first input and under the bound
-        if has(&prop, "size") {
+        if has(&prop, "size") && (l.t <= 300 || l.t % 997 == 0) {
             if let Ok(b) = l.ind.save() {
                 ctx.stats.size_checked += 1;
                 let bound = 256 + 64 * l.cfg.per.iter().sum::<usize>();
@@ -741,6 +849,10 @@ impl<'a> Run<'a> {
         }
         if tie_skip {
             ctx.stats.skipped_tie += 1;
+        }
+        if let Some(rec) = self.rec.as_mut() {
+            rec.push(RecStep { idx, inst: i, kind: l.cfg.kind.clone(), mult: l.cfg.m, got: got.clone(), raw: raw.clone(), c, mag: l.mag, t, skip: tie_skip, spread: (l.pmax - l.pmin).max(0.0),
+                dims: fields.iter().map(|f| f["dim"].as_str().unwrap_or("ratio").to_string()).collect() });
         }
         // ---- value comparison against the exact reference
         if has(&prop, "value") && !tie_skip && !unit.warped() {
@@ -990,7 +1102,264 @@ pub fn stats_json(s: &Stats) -> Value {
         "skipped_ill_conditioned": s.skipped_ill, "skipped_undefined": s.skipped_undef, "skipped_overflow": s.skipped_ovf,
         "skipped_tainted": s.skipped_tainted, "skipped_derived_tie": s.skipped_tie, "determinism_compared": s.det_compared, "ema_restart_checked": s.markov_checked, "effective_input_compared": s.eff_compared,
         "range_checked": s.range_checked, "degenerate_checked": s.deg_checked, "order_checked": s.ord_checked,
-        "order_held_with_zero_slack": s.ord_zero_slack, "returns_checked": s.returns_checked, "size_checked": s.size_checked,
+        "order_held_with_zero_slack": s.ord_zero_slack, "returns_checked": s.returns_checked, "size_checked": s.size_checked, "heap_checked": s.heap_checked, "max_net_heap_growth_bytes": s.max_heap_growth, "wired_parts_compared": s.wired_compared,
         "panics": s.panics, "max_err_over_tol": s.max_rel_err
     })
+}
+
+
+/// C14: run one behaviour at a base unit and at related units (scaled by c, shifted by d) and compare the
+/// outputs as their dimension (from the specification) says.
+pub fn covariance(ctx: &mut Ctx, line: &Value, line_no: u64, tier: &str) {
+    let kinds: Vec<String> = line["ops"].as_array().unwrap().iter().filter(|o| o["op"] == "new").map(|o| o["kind"].as_str().unwrap().to_string()).collect();
+    if kinds.iter().any(|k| k == "RSI") {
+        return; // excluded by the property: fixed 0.1 seed
+    }
+    let shiftable = kinds.iter().all(|k| shift_ok(k));
+    let bases = [Unit::new(1.0, 0.0), Unit::new(0.1, 0.0), Unit::new(1.0e-4, 0.0), Unit::new(3.0, 7.0)];
+    let pow2: Vec<i32> = if tier == "thorough" { (-40..=40).step_by(4).collect() } else { vec![-40, -17, -1, 1, 10, 40] };
+    let arb = [3.0, 0.7, 1.0e3, 1.0 / 3.0];
+    let shifts = [1.0e3, 1048576.0, 1.0e6 + 0.5];
+    let record = |ctx: &mut Ctx, u: &Unit| -> Vec<RecStep> {
+        let mut run = Run::new(u, line_no);
+        run.rec = Some(vec![]);
+        run.exec(ctx, line);
+        run.rec.take().unwrap()
+    };
+    for base in bases.iter() {
+        if base.b != 0.0 && !shiftable {
+            continue;
+        }
+        let r0 = record(ctx, base);
+        let mut tfs: Vec<(f64, f64, bool)> = vec![]; // (scale, shift in units of base.a, power of two)
+        for k in pow2.iter() {
+            tfs.push((2f64.powi(*k), 0.0, true));
+        }
+        for c in arb.iter() {
+            tfs.push((*c, 0.0, false));
+        }
+        if shiftable {
+            for d in shifts.iter() {
+                tfs.push((1.0, *d, false));
+            }
+        }
+        for (cs, d, p2) in tfs {
+            let mut u1 = Unit::new(base.a * cs, base.b * cs + d * base.a);
+            u1.av = base.av;
+            let r1 = record(ctx, &u1);
+            if r1.len() != r0.len() {
+                ctx.violate(line_no, &u1, 0, None, "covariance-different-number-of-outputs", json!({"base": base.label()}));
+                continue;
+            }
+            for (a, b) in r0.iter().zip(r1.iter()) {
+                if a.skip || b.skip {
+                    continue;
+                }
+                let mfac = 1.0 + a.mult.abs();
+                let tt = a.t as f64;
+                for k in 0..a.got.len().min(a.dims.len()) {
+                    let dim = a.dims[k].as_str();
+                    let g0 = a.got[k];
+                    let g1 = b.got[k];
+                    // what the base output becomes under the change of unit
+                    let (mut want, scale_like) = match dim {
+                        "level" => (g0 * cs + d * base.a, true),
+                        "spread" | "var" => (g0 * cs, true),
+                        _ => (g0, false),
+                    };
+                    let mut g1 = g1;
+                    if !want.is_finite() && !g1.is_finite() {
+                        continue;
+                    }
+                    let is_var = dim == "var";
+                    if is_var {
+                        // standard deviations and band half-widths are compared as (signed) variances: the square root
+                        // turns a rounding residue r of a flat window into sqrt(r)
+                        want = want.signum() * want * want;
+                        g1 = g1.signum() * g1 * g1;
+                    }
+                    let big = want.abs().max(g1.abs());
+                    let tol = if p2 {
+                        1e-12 * big
+                    } else if is_var {
+                        // the rounding residue of a variance scales with magnitude x spread of the stream, not magnitude^2
+                        1e-9 * big + 1e-13 * b.mag * b.spread * mfac * mfac * (1.0 + tt)
+                    } else if scale_like {
+                        1e-9 * big + 1e-13 * b.mag * mfac * (1.0 + tt)
+                    } else {
+                        let c = a.c.max(b.c);
+                        if !(c <= 1e6) {
+                            ctx.stats.skipped_ill += 1;
+                            continue;
+                        }
+                        1e-9 * scale_of(&a.kind) + 1e-12 * (1.0 + tt) * c * scale_of(&a.kind)
+                    };
+                    ctx.stats.fields_compared += 1;
+                    let err = (g1 - want).abs();
+                    if tol > 0.0 && err.is_finite() {
+                        ctx.stats.max_rel_err = ctx.stats.max_rel_err.max(err / tol);
+                    }
+                    if !(err <= tol) && !(num_eq(g1, want)) {
+                        let clause = if d != 0.0 { "shift-covariance" } else if p2 { "scale-covariance-power-of-two" } else { "scale-covariance" };
+                        let l = Live { ind: Ind::new("TR", &[], 1.0).unwrap(), t: a.t, mag: b.mag, strict: 0, eff: 0, cmax: 1.0, tainted: false, dead: false, len0: None,
+                            last: vec![], last_in: 0.0, shadow: None, inputs: vec![], mem: 0, pair: None, pmin: 0.0, pmax: 0.0, heap: 0, parts: None,
+                            cfg: Cfg { kind: a.kind.clone(), per: vec![], m: a.mult, seed: 0.1, key: String::new(), mem: 0 } };
+                        ctx.violate(line_no, &u1, a.idx, Some(&l), clause, json!({"base_unit": base.label(), "scale": cs, "shift": d * base.a, "field": k, "dim": dim,
+                            "base_output": g0, "expected": want, "got": g1, "tol": tol}));
+                    }
+                }
+            }
+        }
+        // Maximum(x) = -Minimum(-x) exactly
+        if kinds.len() == 1 && kinds[0] == "MIN" {
+            let newop = line["ops"].as_array().unwrap().iter().find(|o| o["op"] == "new").unwrap();
+            let per: Vec<usize> = vec![newop["per"][0].as_u64().unwrap() as usize];
+            if let Ok(mut mx) = Ind::new("MAX", &per, 1.0) {
+                for (oi, op) in line["ops"].as_array().unwrap().iter().enumerate() {
+                    match op["op"].as_str().unwrap() {
+                        "s" => {
+                            let x = base.price(op["x"].as_i64().unwrap());
+                            let o = mx.next_s(-x).unwrap()[0];
+                            if let Some(r) = r0.iter().find(|r| r.idx == oi) {
+                                ctx.stats.fields_compared += 1;
+                                if !num_eq(-o, r.raw[0]) {
+                                    ctx.violate(line_no, base, r.idx, None, "max-is-not-minus-min-of-minus", json!({"min": r.raw[0], "max_of_negated": o}));
+                                }
+                            }
+                        }
+                        "reset" => mx.reset(),
+                        "new" => {}
+                        _ => break,
+                    }
+                }
+            }
+        }
+    }
+}
+
+
+/// C15: the public building blocks of a composite, constructed separately and wired exactly as the
+/// specification's compositional definition (TaRef) says.
+#[derive(Clone)]
+pub struct Parts {
+    kind: String,
+    m: f64,
+    a: Vec<Ind>,
+    prev: f64,
+    is_new: bool,
+}
+
+impl Parts {
+    pub fn new(cfg: &Cfg) -> Option<Parts> {
+        let p = |i: usize| cfg.per.get(i).copied().unwrap_or(1);
+        let mk = |k: &str, n: usize| Ind::new(k, &[n], 1.0).ok();
+        let a: Vec<Ind> = match cfg.kind.as_str() {
+            "BB" => vec![mk("SMA", p(0))?, mk("SD", p(0))?],
+            "SLOW_STOCH" => vec![mk("FAST_STOCH", p(0))?, mk("EMA", p(1))?],
+            "ATR" => vec![Ind::new("TR", &[], 1.0).ok()?, mk("EMA", p(0))?],
+            "MACD" | "PPO" => vec![mk("EMA", p(0))?, mk("EMA", p(1))?, mk("EMA", p(2))?],
+            "KC" => vec![mk("EMA", p(0))?, mk("ATR", p(0))?],
+            "CE" => vec![mk("MAX", p(0))?, mk("MIN", p(0))?, mk("ATR", p(0))?],
+            "CCI" => vec![mk("SMA", p(0))?, mk("MAD", p(0))?],
+            "RSI" => vec![mk("EMA", p(0))?, mk("EMA", p(0))?],
+            _ => return None,
+        };
+        Some(Parts { kind: cfg.kind.clone(), m: cfg.m, a, prev: 0.0, is_new: true })
+    }
+    pub fn reset(&mut self) {
+        for i in self.a.iter_mut() {
+            i.reset();
+        }
+        self.prev = 0.0;
+        self.is_new = true;
+    }
+    fn feed(i: &mut Ind, x: &InRec) -> f64 {
+        match x {
+            InRec::S(v) => i.next_s(*v).unwrap()[0],
+            InRec::B(b) => i.next_b(b)[0],
+        }
+    }
+    /// observation vector in the field order of the specification
+    pub fn step(&mut self, x: &InRec) -> Vec<f64> {
+        let m = self.m;
+        let close = match x {
+            InRec::S(v) => *v,
+            InRec::B(b) => b.c,
+        };
+        match self.kind.as_str() {
+            "BB" => {
+                let sma = Self::feed(&mut self.a[0], x);
+                let sd = Self::feed(&mut self.a[1], x);
+                vec![sma, sd * m, sd * m]
+            }
+            "SLOW_STOCH" => {
+                let f = Self::feed(&mut self.a[0], x);
+                vec![self.a[1].next_s(f).unwrap()[0]]
+            }
+            "ATR" => {
+                let tr = Self::feed(&mut self.a[0], x);
+                vec![self.a[1].next_s(tr).unwrap()[0]]
+            }
+            "MACD" => {
+                let f = self.a[0].next_s(close).unwrap()[0];
+                let s = self.a[1].next_s(close).unwrap()[0];
+                let line = f - s;
+                let sig = self.a[2].next_s(line).unwrap()[0];
+                vec![line, sig, line - sig]
+            }
+            "PPO" => {
+                let f = self.a[0].next_s(close).unwrap()[0];
+                let s = self.a[1].next_s(close).unwrap()[0];
+                let line = (f - s) / s * 100.0;
+                let sig = self.a[2].next_s(line).unwrap()[0];
+                vec![line, sig, line - sig]
+            }
+            "KC" => {
+                let price = match x {
+                    InRec::S(v) => *v,
+                    InRec::B(b) => (b.c + b.h + b.l) / 3.0,
+                };
+                let avg = self.a[0].next_s(price).unwrap()[0];
+                let atr = Self::feed(&mut self.a[1], x);
+                vec![avg, avg + m * atr, avg - m * atr]
+            }
+            "CE" => {
+                let b = match x {
+                    InRec::B(b) => *b,
+                    InRec::S(v) => Bar::one(*v),
+                };
+                let mx = self.a[0].next_s(b.h).unwrap()[0];
+                let mn = self.a[1].next_s(b.l).unwrap()[0];
+                let atr = self.a[2].next_b(&b)[0];
+                vec![mx - m * atr, mn + m * atr]
+            }
+            "CCI" => {
+                let b = match x {
+                    InRec::B(b) => *b,
+                    InRec::S(v) => Bar::one(*v),
+                };
+                let tp = (b.c + b.h + b.l) / 3.0;
+                let sma = self.a[0].next_s(tp).unwrap()[0];
+                let mad = self.a[1].next_s(tp).unwrap()[0];
+                vec![if mad == 0.0 { 0.0 } else { (tp - sma) / (0.015 * mad) }]
+            }
+            "RSI" => {
+                let (mut up, mut down) = (0.0, 0.0);
+                if self.is_new {
+                    self.is_new = false;
+                    up = 0.1;
+                    down = 0.1;
+                } else if close > self.prev {
+                    up = close - self.prev;
+                } else {
+                    down = self.prev - close;
+                }
+                self.prev = close;
+                let u = self.a[0].next_s(up).unwrap()[0];
+                let d = self.a[1].next_s(down).unwrap()[0];
+                vec![if u + d == 0.0 { 50.0 } else { 100.0 * u / (u + d) }]
+            }
+            _ => vec![],
+        }
+    }
 }
